@@ -55,6 +55,7 @@ class ScriptedServer:
         self.recv_seq = 0
         self.send_seq = 0
         self.auth_seen: t.Optional[dict] = None
+        self.variant = len(script) + sum(len(str(x)) for x in script)      # deterministic per script
 
     def feed(self, data: bytes) -> bytes:
         if not self.scripted:
@@ -102,7 +103,9 @@ class ScriptedServer:
             return refdc.finish_pdu(refdc.PT_FAULT, fl, call, refdc.fault_body(5))
         if k == "ack":
             res = [(CODES[x], 0 if x == "acc" else 2, refdc.NDR64 if x == "acc" else (uuid.UUID(int=0), 0, 0)) for x in r["res"][: max(nctx, 1)]]
-            rb = refdc.bind_ack_body(res, "49664" if pt == refdc.PT_BIND else "")
+            # secondary address: every length residue mod 4 (a 5-, 4-, 3-, 2-digit port; none in an alter_context_resp)
+            self.acks = getattr(self, "acks", 0) + 1
+            rb = refdc.bind_ack_body(res, ("49664", "5000", "135", "80")[(self.acks + self.variant) % 4] if pt == refdc.PT_BIND else "")
             tr = b""
             if self.auth_seen is not None:
                 rb += b"\x00" * (-len(rb) % 4)
